@@ -24,10 +24,11 @@ ALTS = [("and-absorbs-fielded-every", patches.and_keeps_clauses_next_to_fielded_
         ("and-normalize-both-findings", patches.and_normalize_every_and_ranges)]
 
 
-def range_compound(rng):
+def range_compound(rng, numeric=None, ops=("or", "or", "and", "dismax")):
     """And/Or of 2-3 ranges over one field with end points from a tiny pool: overlapping,
     nested, touching (inclusive/exclusive on either side), duplicate and empty ranges."""
-    numeric = rng.random() < 0.4
+    if numeric is None:
+        numeric = rng.random() < 0.4
     kids = []
     for _ in range(rng.choice([2, 2, 3])):
         if numeric:
@@ -44,7 +45,29 @@ def range_compound(rng):
     if rng.random() < 0.3:
         kids.append(world.rand_query(rng, 0, ops=["term"]))
     rng.shuffle(kids)
-    return {"op": rng.choice(["or", "or", "and", "dismax"]), "kids": kids, "b4": 4}
+    return {"op": rng.choice(list(ops)), "kids": kids, "b4": 4}
+
+
+def swapped_twins(rng):
+    """two positional queries of one class that differ only in the order of their operands, side by side in one
+    compound (they are different queries: duplicate elimination must keep both)"""
+    f = rng.choice(world.TEXT_FIELDS)
+    # (two different common words, so that some document has them in one order only)
+    ta, tb = rng.choice([([1], [2]), ([2], [1]), ([1], [1, 2]), ([2], [2, 1]), ([1, 2], [2])])
+    a = {"op": "term", "f": f, "t": ta, "b4": 4}
+    b = {"op": "term", "f": f, "t": tb, "b4": 4}
+    kind = rng.choice(["spannear", "spannear", "spanbefore", "spancontains", "spannot", "spancond", "sequence"])
+    if kind == "spannear":
+        mk = lambda x, y: {"op": "spannear", "a": x, "b": y, "slop": rng.choice([1, 2]), "ordered": True, "mindist": 1}
+        sl = mk(a, b)
+        tw = dict(sl, a=b, b=a)
+    elif kind == "sequence":
+        sl = {"op": "sequence", "kids": [a, b], "slop": 1, "ordered": True}
+        tw = dict(sl, kids=[b, a])
+    else:
+        sl = {"op": kind, "a": a, "b": b}
+        tw = {"op": kind, "a": b, "b": a}
+    return {"op": rng.choice(["or", "or", "and"]), "kids": [sl, tw], "b4": 4}
 
 
 def rewrites(s, q, q2, aq, aq2):
@@ -98,6 +121,10 @@ def check(run):
     for wi in range(nworlds):
         n = rng.randrange(3, 8)
         adocs = {"k%d" % i: world.rand_doc(rng) for i in range(n)}
+        # documents that hold two common words in one order only (what tells two positional queries with swapped
+        # operands apart)
+        for j, toks in enumerate(rng.sample([[[1], [2]], [[2], [1]], [[2], [1, 2]], [[1, 2], [2]], [[1], [1, 2]]], 3)):
+            adocs["o%d" % j] = {"t": {"body": toks, "title": toks}, "n": {}, "b4": 4}
         plan = world.rand_plan(rng, adocs.keys())
         w = world.World(adocs, plan, storage="ram")
         try:
@@ -116,6 +143,10 @@ def check(run):
                         aq = rng.choice([{"op": "andnot", "a": x, "b": ev}, {"op": "andnot", "a": x, "b": ev},
                                          {"op": "and", "kids": [x, {"op": "not", "q": ev}], "b4": 4},
                                          {"op": "andmaybe", "a": x, "b": ev}, {"op": "require", "a": x, "b": ev}])
+                    if qi % 6 in (2, 3) and rng.random() < 0.8:
+                        # conjunctions of numeric ranges (nested, overlapping, touching) / swapped positional twins
+                        aq = range_compound(rng, numeric=True, ops=("and", "and", "or")) if rng.random() < 0.5 \
+                            else swapped_twins(rng)
                     if qi % 6 == 5:
                         aq = world.rand_span_query(rng, rng.randrange(1, 3))      # positional (span) queries
                     elif qi % 6 == 4:
